@@ -23,6 +23,16 @@ def rep {β : Type} (p : P β) : Nat → P (List β)
   | k + 1 => do let x ← p; let r ← rep p k; pure (x :: r)
 /-- count-prefixed list -/
 def list {β : Type} (p : P β) : P (List β) := do let k ← n; rep p k
+/-- `-` (absent) or a count-prefixed list -/
+def optList {β : Type} (p : P β) : P (Option (List β)) := fun s =>
+  match s with
+  | "-" :: r => some (none, r)
+  | _ => (do let l ← list p; pure (some l)) s
+/-- `-` (absent) or one item -/
+def opt {β : Type} (p : P β) : P (Option β) := fun s =>
+  match s with
+  | "-" :: r => some (none, r)
+  | _ => (do let x ← p; pure (some x)) s
 def run {β : Type} (p : P β) (toks : List String) : Option β :=
   match p toks with | some (x, []) => some x | _ => none
 end P
@@ -35,5 +45,7 @@ def v2 (v : V2 Float) : String := f v.x ++ " " ++ f v.y
 def v3 (v : V3 Float) : String := f v.x ++ " " ++ f v.y ++ " " ++ f v.z
 def join (l : List String) : String := " ".intercalate l
 def list {β : Type} (g : β → String) (l : List β) : String := join (n l.length :: l.map g)
+def optN : Option Nat → String | none => "none" | some k => "some " ++ n k
+def optList {β : Type} (g : β → String) : Option (List β) → String | none => "-" | some l => list g l
 def optF : Option Float → String | none => "none" | some x => "some " ++ f x
 end Out
